@@ -501,6 +501,7 @@ class Tr:
         return 'tt' if not parts else parts[0] if len(parts) == 1 else '(' + ', '.join(parts) + ')'
 
     def block(self, stmts, env, k_end, loop):
+        stmts = rewrite_get_none(stmts)
         if not stmts:
             return k_end(env)
         s, rest = stmts[0], stmts[1:]
@@ -874,6 +875,40 @@ class Tr:
         return f'Definition {coq} {" ".join(params)} :=\n{txt}.\n'
 
 
+def rewrite_get_none(stmts):
+    """x = D.get(K); if x is None: A else: B   ==   if K not in D: A else: x = D[K]; B
+    (valid for a dict whose values are never None — the translator only knows dicts of strings / integers —, D and K being the
+    same expressions in two adjacent statements).  When A always leaves (ends with continue / break / return / raise) the else
+    branch is what follows the if."""
+    out, i = [], 0
+    stmts = list(stmts)
+    while i < len(stmts):
+        s = stmts[i]
+        nxt = stmts[i + 1] if i + 1 < len(stmts) else None
+        if isinstance(s, ast.Assign) and len(s.targets) == 1 and isinstance(s.targets[0], ast.Name) and isinstance(s.value, ast.Call) \
+                and isinstance(s.value.func, ast.Attribute) and s.value.func.attr == 'get' and len(s.value.args) == 1 and not s.value.keywords \
+                and isinstance(nxt, ast.If) and isinstance(nxt.test, ast.Compare) and len(nxt.test.ops) == 1 \
+                and isinstance(nxt.test.ops[0], (ast.Is, ast.IsNot)) and isinstance(nxt.test.left, ast.Name) \
+                and nxt.test.left.id == s.targets[0].id and isinstance(nxt.test.comparators[0], ast.Constant) \
+                and nxt.test.comparators[0].value is None:
+            d, key, x = s.value.func.value, s.value.args[0], s.targets[0]
+            absent, present = (nxt.body, nxt.orelse) if isinstance(nxt.test.ops[0], ast.Is) else (nxt.orelse, nxt.body)
+            lookup = ast.copy_location(ast.Assign(targets=[x], value=ast.Subscript(value=d, slice=key, ctx=ast.Load()), lineno=s.lineno), s)
+            test = ast.copy_location(ast.Compare(left=key, ops=[ast.NotIn()], comparators=[d]), nxt.test)
+            absent, present = list(absent), list(present)
+            if absent and isinstance(absent[-1], (ast.Continue, ast.Break, ast.Return, ast.Raise)):
+                out.append(ast.copy_location(ast.If(test=test, body=absent, orelse=[]), nxt))
+                out.append(lookup)
+                out.extend(present)
+            else:
+                out.append(ast.copy_location(ast.If(test=test, body=absent or [ast.Pass()], orelse=[lookup] + present), nxt))
+            i += 2
+            continue
+        out.append(s)
+        i += 1
+    return out
+
+
 def find_method(tree, cls, name):
     for n in ast.walk(tree):
         if isinstance(n, ast.ClassDef) and n.name == cls:
@@ -1081,6 +1116,7 @@ def generate(repo):
             break
     if loop is None or len(pre) != 2:
         raise SystemExit('mmdecode translator: exec_proof: mm_memory / memory_offset / replay loop not found')
+    loop.body = rewrite_get_none(loop.body)
     head = loop.body[0]
     if not (isinstance(head, ast.If) and not head.orelse and isinstance(head.body[-1], ast.Continue)):
         fail(head, 'the replay loop does not start with `if <number not a label>: ...; continue`')
